@@ -42,7 +42,7 @@ def run(rep, tier, seed):
         if i % 3 == 0:
             actions_direct(rep, rnd, pd)
         for j in range(3):
-            kinds = KINDS if j else rnd.choice([('ns',), ('vs',), ('vsv',), ('lsb',), ('lsbv',), ('map',), ('comp', 'vs'), ('mapset', 'vs')])
+            kinds = (KINDS + ('vst', 'lsbi')) if j else rnd.choice([('ns',), ('vs',), ('vsv',), ('lsb',), ('lsbv',), ('map',), ('comp', 'vs'), ('mapset', 'vs'), ('vst',), ('lsbi',), ('vst', 'lsbi', 'vsv')])
             rule = gen_rule(rnd, pd, randbits(rnd, rnd.randint(1, 16)), kinds=kinds)
             d = rnd.choice([None, None, DI.UP, DI.DOWN])
             case_compress(b, pd, rule, d, klass='compress:' + stack)
@@ -65,6 +65,14 @@ def run(rep, tier, seed):
             r_dir, _ = dir_rule(rnd, pd, d_arg, kinds=KINDS_PLAIN)
             pd.direction = rnd.choice([DI.UP, DI.DOWN, DI.BIDIRECTIONAL])
             case_compress(b, pd, r_dir, d_arg, klass='compress-direction-argument:' + stack)
+        if i % 3 == 2:
+            # the packet was handed to the parser as a right-padded Buffer (UDP, SCTP and CoAP parsers accept it): byte-aligned fields then
+            # come right-padded -- same bytes, the other side flag; the residues (LSB residues of any width above all) are the same bits
+            from microschc.rfc8724 import FieldDescriptor as _FD, PacketDescriptor as _PD
+            fields_r = [_FD(id=f.id, value=mk(bits_of(f.value), R if f.value.length % 8 == 0 else L), position=f.position) for f in pd.fields]
+            pd_r = _PD(direction=pd.direction, fields=fields_r, payload=mk(bits_of(pd.payload), R))
+            rule_r = gen_rule(rnd, pd, randbits(rnd, rnd.randint(1, 9)), kinds=('lsb', 'lsb', 'lsbv', 'vs', 'map'))
+            case_compress(b, pd_r, rule_r, None, klass='compress-right-padded-fields:' + stack)
         case_compress(b, pd, no_compression_rule(randbits(rnd, rnd.randint(1, 16)), rnd.choice([L, R])), None, klass='no-compression:' + stack)
         if i % 4 == 0:
             # a rule of fragmentation nature handed to compress (no manager ever selects it): the bare rule id, whatever descriptors it carries
